@@ -1,4 +1,6 @@
 NOT_APPLICABLE = {
+    "C08": "no check decides byte-for-byte determinism: a per-call contract can only say that individual functions consume sets through sorted()/order-free results (those clauses are exercised inside C04/C10/C15/C20 contracts); argv order, hash seed, ninja scheduling, build-directory location and SOURCE_DATE_EPOCH handling are process-level and outside a contract's reach (DESIGN.md B.1)",
+    "C12": "maximum_color runs a second ninja pipeline over extracted per-glyph SVGs; its bookkeeping functions (glue_together._copy_svg/_copy_cbdt/_copy_colr) were not brought under contract in the time available and 'all colour tables paint the same picture' needs the whole pipeline; not claimed rather than claimed thinly (DESIGN.md B.1)",
     "C09": "whole-history / crash-point behaviour of ninja and the file system: no nanoemoji function has a postcondition that could state it (DESIGN.md section 6)",
     "C18": "interpolation and variable COLR are implemented in ufo2ft/fontTools.varLib; nanoemoji only passes records through, a contract would restate assignments and decide nothing (DESIGN.md section 6)",
 }
